@@ -29,6 +29,8 @@ mod c08;
 mod c06;
 mod stmtcases;
 mod c14;
+mod c13;
+mod tables_prec;
 
 fn main() {
     util::silence_panics();
@@ -100,6 +102,7 @@ fn main() {
                 "C07" => c07::run(&params),
                 "C08" => c08::run(&params),
                 "C14" => c14::run(&params),
+                "C13" => c13::run(&params),
                 _ => { eprintln!("unknown property {}", id); std::process::exit(2); }
             };
             // the witnesses of this property run as part of every check (regression corpus)
